@@ -137,6 +137,17 @@ CHECKS = {
          "(spec/TraceReq.tla: WellFormedReply, code/status consistency).",
          "TLC-enumerated request grammar executed against prepared stores; observations validated by TLC (TraceReq)",
          "no coverage-guided byte-level fuzzing; panics/hangs/process death are observations recorded into the trace"),
+ "C10": ("model_checking",
+         "Transition tours of a two-bucket store over hostile key universes (leading dots, backslashes, percent-encoded bytes, "
+         "names of the backends' internal storage, keys that look like 'otherbucket/key'; on key-value backends also '.', '..', "
+         "'a/../b', 'a//b' as distinct byte strings) with every operation kind and a full audit of both buckets after each "
+         "mutating step; Frame is an action property of the model. Every operation addressed to the names '_meta', '.', '..' "
+         "must be refused and change nothing. For path-like keys on the fs backends ('..', '../x', '../bkt2/a', "
+         "'z/../../bkt2/a', './z', 'z//y', '/z', '../../metadata/bkt2/x', ...) every operation kind is issued from every reachable "
+         "state of two buckets: any complete reply is admissible, but all canary objects, the bucket list and the other "
+         "bucket's listing must be exactly as before.",
+         "TLC transition tours with hostile key universes + per-state escape-key probes with spec-computed audits; Frame action property",
+         "fs aliasing is tested for containment, not for a particular outcome"),
 }
 
 NOT_YET = {}
